@@ -71,7 +71,26 @@ def prop_C18(run):
     run.rules_run += ["TAB-cli usage_help.md <-> make_opts <-> parse_command <-> parse_output_format <-> derive_output_filename", "DET1 on the format parameter map"]
 
 
+def prop_C11(run):
+    import rules_tab
+    rules_tab.tab_fmt(run)
+    # the validators the dispatch relies on must be the ones the driver really applies
+    pof = run.anchor("TAB-fmt", "driver::parse_output_format")
+    if pof:
+        table = rules_tab.format_table(run, pof)
+        cli = run.table("cli")["validators"]
+        for name, (variant, fields, line) in sorted(table.items()):
+            for fname, fv in fields.items():
+                if fv[0] == "param":
+                    want = cli.get("%s.%s" % (name, fv[1]))
+                    run.check(want == list(fv[3]), "TAB-fmt", "TAB-fmt|validator|%s.%s" % (name, fv[1]), "%s:%d" % (pof.file, line),
+                              "`%s,%s:` validated by %s" % (name, fv[1], list(fv[3])),
+                              "`%s,%s:` validator is %s, the formatters were audited against %s" % (name, fv[1], list(fv[3]), want))
+    run.rules_run += ["TAB-fmt OutputFormat variant -> formatter(constants), wrappers, panic-guarded parameter domains, divisors nonzero"]
+
+
 PROPS = {
+    "C11": prop_C11,
     "C18": prop_C18,
     "C10": prop_C10,
 }
